@@ -617,7 +617,7 @@ func genEcmpCase(r *hlib.Rand, emit func(string, ...any)) int {
 			continue
 		}
 		g.op("dl %d", pend-1-i+i) // a first message among the latest ones
-		g.op("dl 0")               // its answer: completion, queued packets are released
+		g.op("dl 0")              // its answer: completion, queued packets are released
 		if r.Bool() {
 			sends(1 + r.Intn(3))
 		}
@@ -625,6 +625,76 @@ func genEcmpCase(r *hlib.Rand, emit func(string, ...any)) int {
 	sends(1 + r.Intn(4))
 	if r.Bool() {
 		g.ticks(0, 2+r.Intn(4))
+	}
+	return g.ops
+}
+
+// genHeldBackMiddleCase: n completes handshake H1 with m, starts H2 whose first message is never delivered and which
+// times out, completes (on m's side) H3; m now holds two tunnels for n (oldest H1, primary H3). The held-back first
+// message of H2 - made between them, so older than the primary and newer than the oldest - then arrives, followed by
+// replays of every other first message: none may replace the primary (reviewer seed C10-2).
+func genHeldBackMiddleCase(r *hlib.Rand, emit func(string, ...any)) int {
+	g := &caseGen{r: r, emit: emit, interval: hlib.Pick(r, 100, 50), retries: hlib.Pick(r, 1, 1, 2)}
+	g.nodes = []nodeSpec{{2, []int{1}}, {2, []int{2}}}
+	if r.Chance(1, 3) {
+		g.nodes = append(g.nodes, nodeSpec{2, []int{3}})
+	}
+	var specs []string
+	for _, s := range g.nodes {
+		specs = append(specs, specString(s))
+	}
+	g.op("reset %d %d %s", g.retries, g.interval, strings.Join(specs, " "))
+	n, m := 0, 1
+	if r.Bool() {
+		n, m = 1, 0
+	}
+	a := g.nodes[m].addrs[0]
+	start := func(first bool) {
+		if first {
+			g.op("hs %d %d", n, a)
+		} else {
+			g.op("rehs %d %d", n, a)
+		}
+		g.op("tick %d", n)
+		g.op("sleep %d", g.interval)
+		g.op("sleep %d", g.interval)
+		g.op("tick %d", n)
+	}
+	giveUp := func() {
+		for i := 0; i < 2*g.retries+3; i++ {
+			g.op("sleep %d", 3*g.interval)
+			g.op("tick %d", n)
+		}
+	}
+	g.op("lh %d %d %d", n, a, m)
+	start(true)                   // H1: first message = transmission 0
+	g.op("deliver 0")             // m answers (transmission 1)
+	g.op("deliver 1")             // n completes H1
+	held := r.Intn(1 + r.Intn(3)) // how many handshakes are held back between the oldest and the primary
+	for i := 0; i <= held; i++ {
+		g.op("sleep %d", hlib.Pick(r, 1000, 1500, 3*g.interval))
+		start(false) // first transmission of this one is transmission 2 (+ retransmissions); never delivered
+		giveUp()
+	}
+	g.op("sleep %d", hlib.Pick(r, 1000, 1500, 3*g.interval))
+	g.op("rehs %d %d", n, a)
+	g.op("tick %d", n)
+	g.op("dl 0") // H3 reaches m: the newest tunnel becomes primary
+	g.op("dl 0")
+	g.op("deliver 2") // the held-back first message
+	for i := 0; i < 3+r.Intn(5); i++ {
+		switch r.Intn(5) {
+		case 0:
+			g.op("deliver %d", r.Intn(8))
+		case 1:
+			g.op("dl %d", r.Intn(8))
+		case 2:
+			g.reframed(r.Intn(8))
+		case 3:
+			g.op("deliver 2")
+		default:
+			g.op("dto %d %d", 2+r.Intn(4), m)
+		}
 	}
 	return g.ops
 }
@@ -642,6 +712,7 @@ func preamble(profile string, emit func(string, ...any)) int {
 			total += genRelayCase(fix, emit)
 		case "C10":
 			total += genDelayedStage2Case(fix, emit)
+			total += genHeldBackMiddleCase(fix, emit)
 		case "C31":
 			total += genRaceChecksCase(fix, emit)
 		case "C32":
@@ -666,8 +737,10 @@ func gen(r *hlib.Rand, n int, tier, profile string, emit func(string, ...any)) {
 			total += genAllowCase(r, emit)
 		case profile == "C09" && k < 80:
 			total += genRelayCase(r, emit)
-		case profile == "C10" && k < 55, profile != "C10" && k < 9:
+		case profile == "C10" && k < 40, profile != "C10" && k < 9:
 			total += genDelayedStage2Case(r, emit)
+		case profile == "C10" && k < 58:
+			total += genHeldBackMiddleCase(r, emit)
 		case profile == "C31" && k < 60, profile != "C31" && k < 12:
 			total += genRaceChecksCase(r, emit)
 		default:
